@@ -51,7 +51,7 @@ def run_case(case):
         return pipeline.screened_result(desc, realised, reasons)
     res = {"counters": {}, "maxima": {}, "violations": [], "features": {}, "nontrivial": False}
     N = case["agents"]
-    init = gen.gen_initial_states(rng, ref, N)
+    init = gen.gen_initial_states(rng, ref, N, int_cont=0.4 if case["index"] % 3 == 0 else 0.0)
     vf = simcheck.vf_arrays(ref, params, case["vf"], rng, refsol=refsol)
     try:
         model = dsl.build_lcm_model(desc)
